@@ -193,8 +193,10 @@ def code_names():
     return names
 
 
-def settle(ctx, results, scenario_of, bounds_of=None):
-    """Turn Kani results into obligations / violations on ctx. scenario_of: harness -> scenario name for replay."""
+def settle(ctx, results, scenario_of, bounds_of=None, optional=()):
+    """Turn Kani results into obligations / violations on ctx. scenario_of: harness -> scenario name for replay.
+    optional: harnesses that only ADD depth to an obligation another engine already decides in the same check: when CBMC gives
+    no verdict within the cap (and native sampling finds nothing) this is recorded in the evidence, not counted as inconclusive."""
     names = code_names()
     rp = None
     for h, r in sorted(results.items()):
@@ -219,6 +221,8 @@ def settle(ctx, results, scenario_of, bounds_of=None):
                 ctx.validated += 1
                 ctx.ob("kani/%s/%s" % (h, role), False, what)
                 ctx.violation(role, what + " | found by native sampling after CBMC gave no verdict (%s)" % detail, {"cmd": "scenario %s %s" % (scenario_of(h), raw.hex()), "real": real})
+            elif h in optional:
+                ctx.extra.setdefault("kani_no_verdict", []).append("%s: %s (native sampling found nothing; the obligation is decided by the MIR leg of this check)" % (h, detail))
             else:
                 ctx.ob("kani/" + h, None, detail + " (native sampling of the scenario found nothing)\n" + r.log[-600:])
             continue
